@@ -86,6 +86,7 @@ def body_gc(case, M):
             M.oblige('ret:agrees_with_distance_bin#%d_%d' % (a, b), eq(sc.s_isfinite(sc.n_(cell(D, a, b))), same))
             M.oblige('ret:agrees_with_breadthdist#%d_%d' % (a, b), eq(sc.s_isfinite(sc.n_(cell(Db, a, b))), same))
             M.oblige('ret:agrees_with_reachdist#%d_%d' % (a, b), eq(sc.truth(cell(Rr, a, b)), same))
+            M.oblige('ret:agrees_with_reachdist_distance#%d_%d' % (a, b), eq(sc.s_isfinite(sc.n_(cell(Dr, a, b))), same))
     M.result('comps', comps); M.result('sizes', sizes)
     M.note('multi_component' if m > 1 else 'single_component')
 
